@@ -51,7 +51,7 @@ fn accept_one(acc: &mut Acc, s: &str, edit2: bool) {
     }
 }
 
-const ALPHA: &[char] = &['0', '9', '6', '2', ':', '-', '+', '.', 'T', 't', 'Z', 'z', ' ', '\u{2212}', 'a', 'é', '\u{0663}', '\u{FF11}', '\u{00B2}'];
+const ALPHA: &[char] = &['0', '9', '6', '2', ':', '-', '+', '.', 'T', 't', 'Z', 'z', ' ', '\u{2212}', 'a', 'é', '\u{0663}', '\u{FF11}', '\u{00B2}', '\0', '\r', '\u{1a}', '\u{10}', '\u{0b}'];
 
 fn edits1(base: &[char], out: &mut Vec<Vec<char>>) {
     for i in 0..=base.len() {
@@ -251,7 +251,7 @@ fn main() {
         property: "C10",
         classes: CLASSES,
         required: &["output_ok", "output_z", "output_leap", "output_truncated", "accepted", "rejected", "accepted_latitude", "rejected_value", "rejected_syntax", "edit2_accepted"],
-        rule: "output: wall clocks (boundary dates with year 0..=9999 x boundary times incl. leap) x all 2,879 whole-minute offsets (small date set) / boundary offsets (others) x 5 SecondsFormat x use_z, the text must equal the reference rendering, match the grammar and reparse to the same instant (at the printed precision) and offset; input: (1) field sweeps — every year 0..=9999, every month x day 00..99 on 6 years, every hh x mm 00..99 for the time and (with 3 signs) the offset, fraction lengths 0..=20, separator/zulu/offset-shape variants; (2) ALL strings within 2 edits (insert/delete/replace/transpose over a 19-symbol trigger alphabet incl. U+2212 and non-ASCII digits) of 6 valid templates; (3) all strings of length <= 3 (4 thorough) over that alphabet; impl Ok(v) iff the reference reader accepts and v is the denoted value; non-trivial = latitude forms, value/syntax rejections, truncation, Z, leap",
+        rule: "output: wall clocks (boundary dates with year 0..=9999 x boundary times incl. leap) x all 2,879 whole-minute offsets (small date set) / boundary offsets (others) x 5 SecondsFormat x use_z, the text must equal the reference rendering, match the grammar and reparse to the same instant (at the printed precision) and offset; input: (1) field sweeps — every year 0..=9999, every month x day 00..99 on 6 years, every hh x mm 00..99 for the time and (with 3 signs) the offset, fraction lengths 0..=20, separator/zulu/offset-shape variants; (2) ALL strings within 2 edits (insert/delete/replace/transpose over a 24-symbol trigger alphabet incl. U+2212, non-ASCII digits and the control bytes that alias ' ', '-', ':', '0', '+' under ASCII case folding (c | 32)) of 6 valid templates; (3) all strings of length <= 3 (4 thorough) over that alphabet; impl Ok(v) iff the reference reader accepts and v is the denoted value; non-trivial = latitude forms, value/syntax rejections, truncation, Z, leap",
         assumptions: &["strings more than 2 edits from a template and longer than the short-string bound are not enumerated", "a second of 60 is read as a leap second on any minute (chrono's documented representation)"],
     };
     let tier = args.tier;
